@@ -626,6 +626,15 @@ def p_zero(it, args, n, f):
     return SymV("zero()")
 
 
+def p_from_repr_len(it, args, n, f):
+    """a prefix built from a representation and a length: *some* prefix, named by its operands (the same operands name the
+    same prefix); its relation to every other prefix is unconstrained and chosen lazily by the relation oracle — a sound
+    over-approximation (the bit-vector meaning is C17's business), so code whose answer depends on it is explored under every
+    relation instead of failing closed"""
+    r, l = it.val_force(args[0]), it.val_force(args[1])
+    return SymV("from_repr_len(%r,%r)" % (r, l))
+
+
 def unresolved_view(it, args, n, f):
     """`impl AsView` / `impl AsViewMut` operand of a set operation: an unknown view of its own"""
     a = it.val_force(args[0])
@@ -643,7 +652,7 @@ MODEL_DOC["prefix_trie::trieview::AsViewMut::view_mut"] = "unknown view (operand
 
 PREFIX_ORACLE = {
     "eq": p_eq, "contains": p_contains, "prefix_len": p_prefix_len, "mask": p_mask, "repr": p_repr,
-    "is_bit_set": p_is_bit_set, "longest_common_prefix": p_lcp, "zero": p_zero,
+    "is_bit_set": p_is_bit_set, "longest_common_prefix": p_lcp, "zero": p_zero, "from_repr_len": p_from_repr_len,
 }
 
 
